@@ -313,10 +313,11 @@ deep(x) <-- lp(x,l), if l >= 3;
 """, "lat par life mono", bound=4)
 
 prog("set_reach", """
-rel e(int,int) input; lat rs(int,set_i32); rel has(int,int);
+rel e(int,int) input; lat rs(int,set_i32); rel has(int,int); rel both(int);
 rs(x, set1(y)) <-- e(x,y);
 rs(x, s) <-- e(x,y), rs(y,s);
 has(x,y) <-- rs(x,s), for y in 0..3, if sethas(s,y);
+both(x) <-- rs(x,s), if sethas(s,0), if sethas(s,1);
 """, "lat par life pack mono", bound=4)
 
 prog("bset", """
